@@ -16,7 +16,10 @@ N == Len(Obs.designs)
 
 Dn(p)  == Obs.designs[p]
 FlatOf == [p \in 1..N |-> Elab(Dn(p).ast, Dn(p).top, SeqToSet(Dn(p).keep))]
-SumOf  == [p \in 1..N |-> Summary(Dn(p).adl)]
+\* the design as the source semantics reads it (always blocks are concurrent contexts of their own)
+AdlOf == [p \in 1..N |-> ExpandAlways(Dn(p).adl)]
+Adl(p) == AdlOf[p]
+SumOf  == [p \in 1..N |-> Summary(Adl(p))]
 
 \* ---- value correspondence between the two semantics (ports only)
 KindMap == [bit |-> "sl", bv |-> "slv", u |-> "u", s |-> "s"]
@@ -52,7 +55,7 @@ Check(p, i2, s2) ==
 \* phase is outside the input space of the properties: `not (rst = '1')` holds for 'U', so an active-low asynchronous reset
 \* branch - and its on_reset actions - would run during initialisation).  Reset asserted from the first step on is explored.
 PowerUp(p) ==
-  LET E == Dn(p).adl
+  LET E == Adl(p)
       rs == {c \in 1..Len(E.ctxs) : E.ctxs[c].kind = "seq" /\ ~CIsNone(E.ctxs[c].reset)}
       ins == {Dn(p).inputs[i].n : i \in 1..Len(Dn(p).inputs)}        \* (a reference description may use an internal signal as reset)
   IN [n \in {E.ctxs[c].reset.port : c \in rs} \cap ins |->
@@ -61,7 +64,7 @@ PowerUp(p) ==
 Init ==
   /\ pid \in 1..N
   /\ impl = InitState([FlatOf[pid] EXCEPT !.sigs = PowerUp(pid) @@ @])
-  /\ spec = SpecInit(Dn(pid).adl, SumOf[pid])
+  /\ spec = SpecInit(Adl(pid), SumOf[pid])
   /\ err = (IF impl.err # "" THEN "impl:" \o impl.err ELSE "none")
   /\ last = CEmptyFn
   /\ depth = 0
@@ -73,7 +76,7 @@ ImplIn(p, in) == [n \in DOMAIN in |-> ToImpl(in[n])]
 Step(in) ==
   LET p == pid
       i2 == Cycle(FlatOf[p], impl, ImplIn(p, in), Dn(p).clk)
-      s2 == SpecStep(Dn(p).adl, SumOf[p], spec, in, Dn(p).clk)
+      s2 == SpecStep(Adl(p), SumOf[p], spec, in, Dn(p).clk)
       undefined == s2.err = "undefined"
   IN /\ ~undefined            \* the source semantics leaves this input undefined: not explored
      /\ impl' = i2
@@ -87,7 +90,7 @@ Step(in) ==
 AStep(in) ==
   LET p == pid
       i2 == Drive(FlatOf[p], impl, ImplIn(p, in))
-      s2 == SpecAsync(Dn(p).adl, SumOf[p], spec, in)
+      s2 == SpecAsync(Adl(p), SumOf[p], spec, in)
   IN /\ Dn(p).async = 1
      /\ s2.err # "undefined"
      /\ impl' = i2
